@@ -1,7 +1,7 @@
 (* C12 property theorems.  Only statements closed by [exact]; each followed by Print Assumptions.
    All are about the definitions of C12/Model.v that the correspondence harness (C12/Harness.v) runs.
    wf r = the record's field names are pairwise distinct (what every reader delivers). *)
-From Miller Require Import Base.Bytes Base.Record C12.Model C12.Proofs C12.ProofsStream.
+From Miller Require Import Base.Bytes Base.Record C12.Model C12.Proofs C12.ProofsStream C12.Regex C12.RegexLaws C12.Model2 C12.ProofsFields.
 From Coq Require Import Permutation.
 
 (* ---- cut: -f keeps exactly the named fields in record order (definitional), -x -f exactly the others, and the two
@@ -268,3 +268,130 @@ Proof.
   cbv zeta. split; [intros r0 [<-|[<-|[]]]; split; reflexivity|].
   split; [apply nodupb_NoDup; vm_compute; reflexivity|]. split; vm_compute; reflexivity.
 Qed.
+
+(* ================================================================== regex forms, for EVERY matcher / replacer
+   (the regex library is a parameter: [hit] = index of the first -f regex the field name matches, [f] = what sub / gsub
+   make of a field name; the correspondence check runs the instances at Regex.v's matcher) *)
+
+(* cut -r -f keeps exactly the fields whose name some regex matches, as they stand in the record; -x exactly the others;
+   the two are complementary (each field on exactly one side, order kept on both sides, together a permutation) *)
+Theorem C12_cut_regex_complement : forall (hit : bytes -> option nat) nrs r,
+  cut_r_gen hit nrs false false r = filter (fun kv => is_hit hit kv) r
+  /\ cut_r_gen hit nrs true false r = filter (fun kv => negb (is_hit hit kv)) r
+  /\ interleaved r (cut_r_gen hit nrs false false r) (cut_r_gen hit nrs true false r)
+  /\ Permutation (cut_r_gen hit nrs false false r ++ cut_r_gen hit nrs true false r) r.
+Proof.
+  exact (fun hit nrs r =>
+    conj (eq_trans (cut_r_gen_filter hit nrs false r) (filter_ext _ _ (fun kv => Bool.xorb_false_r (is_hit hit kv)) r))
+   (conj (eq_trans (cut_r_gen_filter hit nrs true r) (filter_ext _ _ (fun kv => Bool.xorb_true_r (is_hit hit kv)) r))
+   (conj (cut_r_complement hit nrs r) (interleaved_perm _ _ _ (cut_r_complement hit nrs r))))).
+Qed.
+Print Assumptions C12_cut_regex_complement.
+
+(* cut -r -o: the same fields (a permutation of cut -r); fields matching the same regex keep their relative order
+   (the sort by regex index is stable), groups in the order of the regexes *)
+Theorem C12_cut_regex_argorder_stable : forall (hit : bytes -> option nat) nrs,
+  (forall s j, hit s = Some j -> j < nrs) -> forall c r,
+  Permutation (cut_r_gen hit nrs c true r) (cut_r_gen hit nrs c false r)
+  /\ (forall i, filter (fun kv => Nat.eqb i (hit_idx hit kv)) (cut_r_gen hit nrs c true r)
+                = filter (fun kv => Nat.eqb i (hit_idx hit kv)) (cut_r_gen hit nrs c false r))
+  /\ cut_r_gen hit nrs c true r
+     = flat_map (fun i => filter (fun kv => Nat.eqb i (hit_idx hit kv)) (cut_r_gen hit nrs c false r)) (seq 0 (Nat.max 1 nrs)).
+Proof. exact cut_r_o_spec. Qed.
+Print Assumptions C12_cut_regex_argorder_stable.
+
+(* the model run against mlr is that instance, and its matcher meets the index bound *)
+Theorem C12_cut_regex_model_is_instance : forall rs c o r,
+  cut_r rs c o r = cut_r_gen (first_match rs 0) (List.length rs) c o r
+  /\ (forall s j, first_match rs 0 s = Some j -> j < List.length rs).
+Proof. exact (fun rs c o r => conj (cut_r_is_gen rs c o r) (fun s j H => first_match_bound rs 0 s j H)). Qed.
+Print Assumptions C12_cut_regex_model_is_instance.
+
+(* rename -r / -g, one "regex,replacement" pair, any replacer f: a field whose name f leaves alone and on which no renamed
+   field lands keeps its name, its value and its place among such fields; a replacer that changes no name of the record
+   changes nothing; several pairs are one walk after the other *)
+Theorem C12_rename_regex_bystanders : forall (f : bytes -> bytes) r,
+  filter (rr_bystander f r) (rename_walk_f (List.length r) f [] r) = filter (rr_bystander f r) r
+  /\ ((forall k, In k (keys r) -> f k = k) -> rename_walk_f (List.length r) f [] r = r).
+Proof. exact (fun f r => conj (rename_f_bystanders f r) (rename_f_no_match f r)). Qed.
+Print Assumptions C12_rename_regex_bystanders.
+
+Theorem C12_rename_regex_model_is_instance : forall ci re_ rep g r specs1 specs2,
+  rename_r [(ci, re_, rep)] g r
+  = rename_walk_f (List.length r)
+      (if g then (fun s => gsub_lit (S (List.length s)) ci re_ (expand rep [] []) s true) else sub1 ci re_ rep) [] r
+  /\ rename_r (specs1 ++ specs2) g r = rename_r specs2 g (rename_r specs1 g r).
+Proof. exact (fun ci re_ rep g r specs1 specs2 => conj (rename_r_single_is_walk ci re_ rep g r) (rename_r_app specs1 specs2 g r)). Qed.
+Print Assumptions C12_rename_regex_model_is_instance.
+
+Example C12_nonvacuous_regex :
+  let r := [(B "x1", B "a"); (B "y1", B "b"); (B "x2", B "c"); (B "z", B "d"); (B "y2", B "e")] in
+  let rs := [(false, Seq Bol (Chr "y")); (false, Seq Bol (Chr "x"))] in
+  cut_r rs false false r = [(B "x1", B "a"); (B "y1", B "b"); (B "x2", B "c"); (B "y2", B "e")]
+  /\ cut_r rs true false r = [(B "z", B "d")]
+  /\ cut_r rs false true r = [(B "y1", B "b"); (B "y2", B "e"); (B "x1", B "a"); (B "x2", B "c")]
+  /\ rename_r [(false, Seq Bol (Chr "x"), [inl (B "w")])] false r
+     = [(B "w1", B "a"); (B "y1", B "b"); (B "w2", B "c"); (B "z", B "d"); (B "y2", B "e")]
+  /\ filter (rr_bystander (sub1 false (Seq Bol (Chr "x")) [inl (B "w")]) r) r = [(B "y1", B "b"); (B "z", B "d"); (B "y2", B "e")].
+Proof. vm_compute. repeat split; reflexivity. Qed.
+
+(* ================================================================== verbs that rewrite fields one by one
+   sub / gsub / ssub (-f, -a), case -v, sec2gmt, fill-empty are  map_values accept fv : pe.Value = fv(pe.Value) on the
+   accepted fields.  For EVERY acceptor and EVERY value function (regex replacement, Unicode case mapping, time formatting,
+   the type inference that decides whether a value is a string are third party): field names and positions are kept, a
+   field that is not accepted is untouched, an accepted one holds fv of its value; bystanders keep name, value, order *)
+Theorem C12_value_rewriting_verbs_change_only_accepted_values : forall (accept : bytes -> bool) (fv : bytes -> bytes) r,
+  keys (map_values accept fv r) = keys r
+  /\ Forall2 (fun a b => fst b = fst a /\ (accept (fst a) = false -> b = a) /\ (accept (fst a) = true -> snd b = fv (snd a)))
+             r (map_values accept fv r)
+  /\ filter (fun kv => negb (accept (fst kv))) (map_values accept fv r) = filter (fun kv => negb (accept (fst kv))) r
+  /\ (forall k, get k (map_values accept fv r) = if accept k then option_map fv (get k r) else get k r).
+Proof.
+  exact (fun accept fv r => conj (map_values_keys accept fv r) (conj (map_values_pointwise accept fv r)
+        (conj (map_values_bystanders accept fv r) (fun k => map_values_get accept fv k r)))).
+Qed.
+Print Assumptions C12_value_rewriting_verbs_change_only_accepted_values.
+
+(* inverse pairs of value rewriting: if g undoes f on the accepted values of the record, the second verb undoes the first
+   (ssub a,b then b,a when b does not occur; case -u then -l on lower-case values); a value function that fixes the accepted
+   values leaves the record alone *)
+Theorem C12_value_rewriting_inverse : forall accept f g r,
+  ((forall kv, In kv r -> accept (fst kv) = true -> g (f (snd kv)) = snd kv) -> map_values accept g (map_values accept f r) = r)
+  /\ ((forall kv, In kv r -> accept (fst kv) = true -> f (snd kv) = snd kv) -> map_values accept f r = r).
+Proof. exact (fun accept f g r => conj (map_values_inverse accept f g r) (map_values_fixed accept f r)). Qed.
+Print Assumptions C12_value_rewriting_inverse.
+
+(* case -k / -k -v (and unspace) build a new record with PutReference: when the new names are pairwise distinct every
+   field stays in place, accepted fields renamed (and re-valued), the others untouched *)
+Theorem C12_key_rewriting_verbs_without_collision : forall accept fk fv r,
+  NoDup (keys (map (rekey accept fk fv) r)) ->
+  rebuild accept fk fv r = map (rekey accept fk fv) r
+  /\ filter (fun kv => negb (accept (fst kv))) r
+     = map snd (filter (fun p => negb (accept (fst (fst p)))) (combine r (rebuild accept fk fv r))).
+Proof. exact (fun accept fk fv r H => conj (rebuild_no_collision accept fk fv r H) (rebuild_bystanders accept fk fv r H)). Qed.
+Print Assumptions C12_key_rewriting_verbs_without_collision.
+
+(* fill-down -f [-a]: one record out per record in; fields that are not named keep name, value and relative order; a stream
+   in which every named field (--all: every field) is present and, without -a, non-empty passes unchanged *)
+Theorem C12_fill_down_bystanders : forall a fs rs,
+  List.length (fill_down a false fs rs) = List.length rs
+  /\ map (filter (fun kv => negb (mem (fst kv) fs))) (fill_down a false fs rs) = map (filter (fun kv => negb (mem (fst kv) fs))) rs.
+Proof. exact fill_down_bystanders. Qed.
+Print Assumptions C12_fill_down_bystanders.
+
+Theorem C12_fill_down_complete_records_unchanged : forall (a all : bool) (fs : list bytes) (rs : list record),
+  (forall r f, In r rs -> In f (if all then keys r else fs) -> fd_present a (get f r) = true) -> fill_down a all fs rs = rs.
+Proof. exact fill_down_complete_records. Qed.
+Print Assumptions C12_fill_down_complete_records_unchanged.
+
+Example C12_nonvacuous_fields :
+  let rs := [[(B "a", B "1"); (B "b", B "x")]; [(B "a", B ""); (B "c", B "y")]; [(B "c", B "z")]] in
+  fill_down false false [B "a"; B "b"] rs
+  = [[(B "a", B "1"); (B "b", B "x")]; [(B "a", B "1"); (B "c", B "y"); (B "b", B "x")]; [(B "c", B "z"); (B "a", B "1"); (B "b", B "x")]]
+  /\ fill_down true false [B "a"] rs = [[(B "a", B "1"); (B "b", B "x")]; [(B "a", B ""); (B "c", B "y")]; [(B "c", B "z"); (B "a", B "")]]
+  /\ map (map_values (accept_names [B "b"; B "c"]) (ssub1 (B "y") (B "yy"))) rs
+     = [[(B "a", B "1"); (B "b", B "x")]; [(B "a", B ""); (B "c", B "yy")]; [(B "c", B "z")]]
+  /\ gssub (B "ab") (B "c") (B "xababyab") = B "xccyc"
+  /\ rebuild accept_all (map Regex.upper) (fun v => v) [(B "a", B "1"); (B "b", B "2")] = [(B "A", B "1"); (B "B", B "2")]
+  /\ rebuild accept_all (map Regex.upper) (fun v => v) [(B "a", B "1"); (B "A", B "2")] = [(B "A", B "2")].
+Proof. vm_compute. repeat split; reflexivity. Qed.
